@@ -1215,10 +1215,22 @@ package memberlist
 //@ func (*Memberlist).NumMembers(m)
 //@   safety [C07,C20]
 //@   requires ok: mlNet(m)
+// C08: the departure is recorded in the same critical section in which the leave flag goes up and the node's own
+// incarnation is read, so no accusation can slip in between and make the departure claim stale
+//@ ghost $selfWas NodeStateType     // Leave: the state of the local record when the leave flag went up
+//@ ghost $leaving bool
+//@ ghost $departedOK bool
 //@ func (*Memberlist).Leave(m, timeout)
-//@   safety [C20]
+//@   safety [C08,C20]
 //@   panics documented
 //@   requires ok: mlNet(m)
+//@   at call (*sync/atomic.Int32).Store: set $selfWas := ite(has(m.nodeMap, m.config.Name), m.nodeMap[m.config.Name].State, StateLeft)
+//@   at call (*sync.RWMutex).Unlock #2: assert departed [C08]: m.leave == 1 && has(m.nodeMap, m.config.Name) && ($selfWas == StateAlive ==> m.nodeMap[m.config.Name].State == StateLeft)
+//@   at call (*sync.Mutex).Lock: set $leaving := false
+//@   at call (*sync/atomic.Int32).Store: set $leaving := true
+//@   at call (*sync/atomic.Int32).Store: set $departedOK := false
+//@   at call (*sync.RWMutex).Unlock: setbefore $departedOK := $departedOK || (has(m.nodeMap, m.config.Name) && m.nodeMap[m.config.Name].State == StateLeft)
+//@   ensures-internal recorded [C08]: $leaving && $selfWas == StateAlive ==> $departedOK      // a node that saw itself alive when it started to leave has recorded its departure under the lock
 // construction: what every contract above takes as `mlNet(m)` (except the validity of the user's configuration,
 // which Create does not check) is established by newMemberlist
 //@ func newMemberlist(conf)
